@@ -56,6 +56,7 @@ type Account struct {
 	Password string // clear text (the server stores a hash of the obfuscated bytes the client sends)
 	Access   []byte // 8 bytes
 	FileRoot string
+	RawHash  string // when set, written verbatim as the stored hash ("-" = empty string)
 }
 
 var hashCache sync.Map
@@ -91,7 +92,13 @@ func yamlQuote(s string) string {
 // AccountYAML renders an account file in the named-flag format.
 func AccountYAML(a Account) string {
 	var sb strings.Builder
-	fmt.Fprintf(&sb, "Login: %s\nName: %s\nPassword: %s\nAccess:\n", yamlQuote(a.Login), yamlQuote(a.Name), yamlQuote(HashPassword(string(refcodec.Obfuscate([]byte(a.Password))))))
+	hash := HashPassword(string(refcodec.Obfuscate([]byte(a.Password))))
+	if a.RawHash == "-" {
+		hash = ""
+	} else if a.RawHash != "" {
+		hash = a.RawHash
+	}
+	fmt.Fprintf(&sb, "Login: %s\nName: %s\nPassword: %s\nAccess:\n", yamlQuote(a.Login), yamlQuote(a.Name), yamlQuote(hash))
 	// DownloadFile first: the loader recognises the new format by this key.
 	order := append([]int{2}, DefinedBits()...)
 	seen := map[int]bool{}
